@@ -12,19 +12,22 @@
       point : lifecycle point of the single injected failure,
       how   : exit kind, n : the n of sys.exit(n),
       where : "pre" | "post"  (before / after the base class' setup/teardown)]
+   point = "LockWait" (only with lock = TRUE): the lock file is HELD by another
+   process when the run starts, the run has to wait for it, and the failure
+   (how = "CtrlC": Ctrl-C / cancellation) arrives while it is still waiting.
 
    An observation  o  (final state read back from OUTSIDE after entry_point()
    has ended): process exit status, META.json, run_meta row, log.json.zst read
    with PenlogReader, flock probe, environment seen by the hook script, phases
-   entered by the command.  See harness/c15_worker.py for how each field is
-   measured.
+   entered by the command, rundir = an artifacts directory of this run (run-DATE)
+   exists.  See harness/c15_worker.py for how each field is measured.
 *)
 EXTENDS Integers, Sequences, FiniteSets, TLC
 
 Kinds        == {"Script", "Scanner", "UDSScanner"}
 ScannerKinds == {"Scanner", "UDSScanner"}
 RunPoints    == {"Setup", "Main", "Teardown"}
-Points       == {"PreHook", "DbOpen"} \cup RunPoints \cup {"DbClose", "PostHook"}
+Points       == {"LockWait", "PreHook", "DbOpen"} \cup RunPoints \cup {"DbClose", "PostHook"}
 RaisedHows   == {"SysExit", "ExpConn", "ExpUds", "Unexpected", "CtrlC", "KbdInt"}
 Hows         == {"Return", "HookFails", "DbFails"} \cup RaisedHows
 
@@ -52,7 +55,10 @@ ExpectedExit(c) ==
               \* (scanner kinds); a plain script does not: 70 or 74 are both accepted
               IF c.kind \in ScannerKinds THEN {74} ELSE {70, 74}
          [] c.how = "Unexpected" -> {70}
-         [] c.how \in {"CtrlC", "KbdInt"} -> IF c.how = "CtrlC" /\ c.point \notin RunPoints THEN 0..255 ELSE {130}
+         [] c.how \in {"CtrlC", "KbdInt"} ->
+              \* (a run that is interrupted while it still waits for the lock file has not done anything
+              \*  else than being interrupted: 130, the documented status of Ctrl-C)
+              IF c.how = "CtrlC" /\ c.point \notin RunPoints \cup {"LockWait"} THEN 0..255 ELSE {130}
          [] c.how = "DbFails" /\ c.point = "DbOpen"  -> 1..255          \* some failure status
          [] c.how = "DbFails" /\ c.point = "DbClose" -> {0} \cup SysExits
          [] OTHER -> 0..255
@@ -61,7 +67,19 @@ ExpectedExit(c) ==
 \* "raised in setup, main or teardown"; for an interrupt outside the run proper it promises no particular status
 \* (the run may be carried out or cut short), but "however a command ends" META.json is written, the log is closed
 \* and the lock is released.
-InterruptOutsideRun(c) == c.how = "CtrlC" /\ c.point \notin RunPoints
+InterruptOutsideRun(c) == c.how = "CtrlC" /\ c.point \notin RunPoints \cup {"LockWait"}
+
+\* The lock file can be held by another run: then the run waits for it, and Ctrl-C can arrive during that wait.
+\* Such a run never got as far as its pre-hook, database or setup/main/teardown.  It MAY end without having created
+\* anything (no artifacts directory, no run entry): then there is nothing that could be inconsistent.  But "every
+\* run leaves a consistent exit code, META.json, log file": an artifacts directory that it DID create (o.rundir) is
+\* an artifacts directory of a run that has ended, i.e. it carries META.json with the exit code of the process and a
+\* closed, fully readable log; a run entry that it did create has its end time and the same exit code.  The lock
+\* belongs to the other run: o.lockFree here means that the holder's lock was still in place (same file, still
+\* locked) when the run had ended, and that the file was free as soon as the holder had released it.
+InterruptedWaiter(c) == c.point = "LockWait" /\ c.how = "CtrlC"
+\* the artifacts directory of this run has to exist / has to be consistent
+HasArt(c, o) == c.art /\ (InterruptedWaiter(c) => o.rundir)
 
 UnspecifiedExit(c) == Cardinality(ExpectedExit(c)) > 1
 \* the run_meta row cannot be demanded when the database itself is what fails
@@ -75,16 +93,16 @@ Clauses(c, o) == <<
   \* did not end by itself (only observed for environment disturbances that the run is supposed to ride out)
   <<"X1/run-ends-by-itself",         o.escaped # "Hang">>,
   <<"X1/exit-code-follows-mapping",  o.escaped = "Hang" \/ o.exit \in ExpectedExit(c)>>,
-  <<"X2/meta-json-written",          c.art => o.meta.present>>,
-  <<"X2/meta-exit-code=process",     (c.art /\ o.meta.present /\ ~InterruptOutsideRun(c)) => o.meta.exit = o.exit>>,
-  <<"X2/meta-start<=end",            (c.art /\ o.meta.present) => o.meta.timesOk>>,
-  <<"X2/meta-config-recreates-run",  (c.art /\ o.meta.present) => o.meta.configOk>>,
-  <<"X3/log-file-exists",            c.art => o.log.present>>,
-  <<"X3/log-closed",                 (c.art /\ o.log.present) => o.log.complete>>,
-  <<"X3/log-fully-readable",         (c.art /\ o.log.present /\ o.log.complete) =>
+  <<"X2/meta-json-written",          HasArt(c, o) => o.meta.present>>,
+  <<"X2/meta-exit-code=process",     (HasArt(c, o) /\ o.meta.present /\ ~InterruptOutsideRun(c)) => o.meta.exit = o.exit>>,
+  <<"X2/meta-start<=end",            (HasArt(c, o) /\ o.meta.present) => o.meta.timesOk>>,
+  <<"X2/meta-config-recreates-run",  (HasArt(c, o) /\ o.meta.present) => o.meta.configOk>>,
+  <<"X3/log-file-exists",            HasArt(c, o) => o.log.present>>,
+  <<"X3/log-closed",                 (HasArt(c, o) /\ o.log.present) => o.log.complete>>,
+  <<"X3/log-fully-readable",         (HasArt(c, o) /\ o.log.present /\ o.log.complete) =>
                                         (o.log.parsedAll /\ o.log.markers = o.phases)>>,
   <<"X4/lock-released",              c.lock => o.lockFree>>,
-  <<"X5/db-run-entry-exists",        (c.db /\ ~UnspecifiedDb(c)) => o.db.present>>,
+  <<"X5/db-run-entry-exists",        (c.db /\ ~UnspecifiedDb(c) /\ ~InterruptedWaiter(c)) => o.db.present>>,
   <<"X5/db-end-time-set",            (c.db /\ ~UnspecifiedDb(c) /\ o.db.present) => o.db.hasEnd>>,
   <<"X5/db-exit-code=process",       (c.db /\ ~UnspecifiedDb(c) /\ o.db.present /\ ~InterruptOutsideRun(c)) => o.db.exit = o.exit>>,
   <<"X6/failing-hook-reported",      (Effective(c) /\ c.how = "HookFails") => o.reported>>,
@@ -116,4 +134,5 @@ ObsOK(o) ==
   /\ o.db.present \in BOOLEAN /\ o.db.hasEnd \in BOOLEAN /\ o.db.exit \in -1..255
   /\ o.pre \in 0..9 /\ o.post.ran \in 0..9 /\ o.post.exit \in -1..255 /\ o.post.metaExit \in -1..255
   /\ o.reported \in BOOLEAN
+  /\ o.rundir \in BOOLEAN
 =============================================================================
